@@ -14,6 +14,7 @@ import (
 	"github.com/whatap/golib/io"
 	"github.com/whatap/golib/lang/service"
 	"github.com/whatap/golib/lang/step"
+	"github.com/whatap/golib/lang/value"
 	"github.com/whatap/golib/zzvf"
 )
 
@@ -111,3 +112,61 @@ func ZZ_C08_Carrier_ErrorSnapPack1() {
 }
 
 var _ = service.NewTxRecord
+
+// a ProfilePack object that decodes two profiles one after the other: the second profile's
+// transaction record was written without (some of) the optional sections the first one carried
+// (multi-trace ids, caller identity, custom fields), and must come back exactly as a new pack
+// decodes it -- nothing of the first record shows through.
+func ZZ_C08_ProfilePackSecondRead() {
+	mkBytes := func(tx *service.TxRecord, steps []step.Step) []byte {
+		p := NewProfilePack()
+		zzvf.Fill(p, -1, 1)
+		p.Transaction = tx
+		p.SetProfile(steps)
+		out := io.NewDataOutputX()
+		p.Write(out)
+		return out.ToByteArray()
+	}
+	tx1 := service.NewTxRecord()
+	zzvf.Fill(tx1, -1, 1)
+	tx1.Mtid = zzvf.Int64()
+	zzvf.Assume(tx1.Mtid != 0)
+	tx1.Mcaller = zzvf.Int64()
+	tx1.McallerPcode = zzvf.Int64()
+	zzvf.Assume(tx1.McallerPcode != 0)
+	tx1.Fields = value.NewMapValue()
+	tx1.Fields.PutLong("retries", zzvf.Int64())
+	m := step.NewMessageStep()
+	zzvf.Fill(m, -1, 0)
+	b1 := mkBytes(tx1, []step.Step{m})
+
+	tx2 := service.NewTxRecord()
+	zzvf.Fill(tx2, -1, 0)
+	if zzvf.Choose(2) == 1 {
+		tx2.Mtid, tx2.Mdepth, tx2.Mcaller = 0, 0, 0
+	}
+	if zzvf.Choose(2) == 1 {
+		tx2.McallerPcode, tx2.McallerOkind, tx2.McallerOid, tx2.McallerSpec, tx2.McallerUrl = 0, 0, 0, 0, 0
+	}
+	if zzvf.Choose(2) == 1 {
+		tx2.Fields = nil
+	}
+	b2 := mkBytes(tx2, nil)
+
+	ref := NewProfilePack()
+	ref.Read(io.NewDataInputX(b2))
+
+	rp := NewProfilePack()
+	in1 := io.NewDataInputX(b1)
+	rp.Read(in1)
+	zzvf.Assert(in1.Available() == 0, "ProfilePack/second-read/first-consumed-exactly")
+	in2 := io.NewDataInputX(b2)
+	rp.Read(in2)
+	zzvf.Assert(in2.Available() == 0, "ProfilePack/second-read/second-consumed-exactly")
+	zzvf.Assert(rp.Transaction != nil && ref.Transaction != nil, "ProfilePack/second-read/transaction-restored")
+	if rp.Transaction != nil && ref.Transaction != nil {
+		zzvf.Assert(zzvf.Same(rp.Transaction, ref.Transaction), "ProfilePack/second-read/record-as-a-new-pack-decodes-it")
+	}
+	zzvf.Assert(zzvf.Same(rp.Steps, ref.Steps), "ProfilePack/second-read/step-stream-as-a-new-pack-decodes-it")
+	zzvf.Reach("ProfilePack/second-read")
+}
